@@ -397,3 +397,44 @@ Example C03_nonvacuous :
   cstr_debug [65; 127; 10; 200; 34] = Ok [34; 65; 92;120;55;70; 92;120;48;65; 92;120;67;56; 92;34; 34] /\
   enumerate {| min_len := 2; min_len_nul := 2; strict := false |} 0 [65;66;0;67] = Ok [ {| f_start := 0; f_len := 2; f_addr := 0; f_nul := true |} ].
 Proof. vm_compute. repeat split; reflexivity. Qed.
+
+(* ---- component `util`: termination and output bounds of the utility / formatting layer ---- *)
+From PV.Model Require Util.
+From PV.Spec Require UtilSpec.
+From PV.Proofs Require UtilText UtilProofs.
+
+(* the two loops that are not structural (`for x in decode_utf16(..)`, trimn's `while len > 0`): fuel length + 1
+   suffices on every input; decoding yields at most one item per code unit *)
+Theorem C03_util_fuel_suffices : forall ws,
+  Util.decode_iter (S (length ws)) None ws = Ok (UtilSpec.utf16_decode_spec ws) /\
+  Util.trimn_loop (S (length ws)) ws (lenN ws) = Ok (lenN (UtilSpec.trim_spec ws)) /\
+  (length (UtilSpec.utf16_decode_spec ws) <= length ws)%nat.
+Proof. exact UtilProofs.util_fuel_suffices. Qed.
+Print Assumptions C03_util_fuel_suffices.
+
+(* FmtUtf16: Display writes at most 3 bytes per input word (4 for the 2 words of a surrogate pair),
+   Debug at most 6 bytes per word plus the 3 bytes of L" and " *)
+Theorem C03_util_fmt_bounds : forall ws, UtilSpec.units_ok ws ->
+  (exists out, Util.fmt_display ws = Ok out /\ (length out <= 3 * length ws)%nat) /\
+  (exists out, Util.fmt_debug ws = Ok out /\ (length out <= 6 * length ws + 3)%nat).
+Proof. exact UtilProofs.fmt_bounds. Qed.
+Print Assumptions C03_util_fmt_bounds.
+
+(* the GUID formatters write exactly 38 (dashed) / 32 (plain) bytes *)
+Theorem C03_util_guid_length : forall upper dashed g out, Util.Data1 g < 2 ^ 32 -> Util.Data2 g < 2 ^ 16 -> Util.Data3 g < 2 ^ 16 ->
+  length (Util.Data4 g) = 8%nat -> bytes_ok (Util.Data4 g) -> Util.guid_fmt upper dashed g = Ok out ->
+  length out = if dashed then 38%nat else 32%nat.
+Proof. exact UtilProofs.guid_fmt_length. Qed.
+Print Assumptions C03_util_guid_length.
+
+(* Ptr::fmt / Pir::fmt write exactly 2 + 2 * size_of::<Va>() bytes *)
+Theorem C03_util_ptr_fmt_length : forall bits va out, bits = 32 \/ bits = 64 -> va < 2 ^ bits -> Util.ptr_fmt bits va = Ok out ->
+  lenN out = 2 + 2 * (bits / 8).
+Proof. exact UtilProofs.ptr_fmt_length. Qed.
+Print Assumptions C03_util_ptr_fmt_length.
+
+(* to_strs yields at most one name per bit of the flag word *)
+Theorem C03_util_to_strs_bounded : forall checks size t x, size * 8 < W32 ->
+  exists l, Util.to_strs checks size t x = Ok l /\ (length l <= N.to_nat (size * 8))%nat.
+Proof. exact UtilProofs.to_strs_bounded. Qed.
+Print Assumptions C03_util_to_strs_bounded.
